@@ -153,6 +153,7 @@ func runDyn(o *Opts) *Summary {
 	var w *World
 	joins, leaves, refused := 0, 0, 0
 	restarts := 0
+	rejoins := 0
 	sigInj := map[string]int{}
 	ffJoins := 0
 	for t := 0; t < o.Traces; t++ {
@@ -223,6 +224,30 @@ func runDyn(o *Opts) *Summary {
 						c = 0 // the validator set only grows (3 -> 8)
 					}
 					switch {
+					case o.Arg == "restart" && len(left) > 0 && left[0].kind == "badger" && len(validators) > 0 && w.rng.Intn(2) == 0:
+						// a validator that left comes back over its own database: restart with
+						// bootstrap (it replays its own removal, finds itself outside the
+						// validator set and asks to join again)
+						x := left[0]
+						left = left[1:]
+						via := validators[w.rng.Intn(len(validators))]
+						m := vn.Restart(x, false, gen, NodeOpts{Store: "badger", Cache: o.Cache, Dir: o.Dir, SyncLimit: 40, SuspendLimit: dynSuspendLimit})
+						replaced := false
+						for i, q := range active {
+							if q == x {
+								active[i] = m
+								replaced = true
+							}
+						}
+						if !replaced {
+							active = append(active, m)
+						}
+						restarts++
+						rejoins++
+						if m.State() == "Joining" {
+							ops = append(ops, vn.startJoin(m, via, true))
+							joins++
+						}
 					case c <= 2 || len(validators) <= 2: // join (new participant, or one that left)
 						var p *Part
 						if len(left) > 0 && w.rng.Intn(2) == 0 && o.Arg != "restart" {
@@ -541,6 +566,7 @@ func runDyn(o *Opts) *Summary {
 	}
 	s.Extra["joins"] = joins
 	s.Extra["restarts"] = restarts
+	s.Extra["rejoins_over_own_database"] = rejoins
 	s.Extra["leaves"] = leaves
 	s.Extra["refused_by_app"] = refused
 	s.Extra["valid_adopted"] = ffJoins
